@@ -149,67 +149,117 @@ def check_mask(prog: Program, res: Result) -> None:
 
 
 def check_valid(prog: Program, res: Result) -> None:
+    """Read off the expanded data flow around the single in-place update `refined[idx] += offsets` (names, statement
+    splitting and helper extraction do not matter):
+      flat   = rough.view(S*C, 2)                      idx = where(~isnan(flat[:, 0]))[0]
+      crops  = crop_bboxes(cms.reshape(S*C, 1, H, W), make_centered_bboxes(flat[idx], n, n), idx)
+      offs   = cat(integral_regression(crops, g, g), dim=1),  g = arange(n) - (n - 1) / 2
+      result = flat.clone() with rows idx increased by offs, reshaped to (S, C, 2); values are the rough ones."""
+    import re
+
     R = "C07-valid"
     fi = prog.func(f"{PF}:find_global_peaks")
     res.touch(fi)
-    d: Dict[str, List[ast.AST]] = {}
-    for st in walk_function(fi.node):
-        if isinstance(st, ast.Assign) and isinstance(st.targets[0], ast.Name):
-            d.setdefault(st.targets[0].id, []).append(st.value)
+    fn = fi.node
+    maps = fi.pos_params[0] if fi.pos_params else "cms"
     calls = [c for c, q in prog.calls_in(fi) if q == f"{PF}:find_global_peaks_rough"]
     res.ob(R, len(calls) == 1, fi.qualname, "one rough detection", f"{len(calls)} rough detections", fi.where)
     if len(calls) != 1:
         return
     st = enclosing_stmt(calls[0])
+    if not (isinstance(st, ast.Assign) and isinstance(st.targets[0], ast.Tuple) and len(st.targets[0].elts) == 2):
+        raise AnalysisError(f"{fi.qualname}: result of find_global_peaks_rough is not unpacked into (peaks, values)")
     rough, vals = [norm(e) for e in st.targets[0].elts]
-    vi = d.get("valid_idx", [])
-    ok = len(vi) == 1 and norm(vi[0]).replace(" ", "") == f"torch.where(~torch.isnan({rough}[:,0]))[0]"
-    res.ob(R, ok, fi.qualname, "valid_idx = rows of the flattened peak list that are not NaN", f"valid_idx is `{short(vi[0], 60) if vi else '?'}`", fi.where)
-    flat = [v for v in d.get(rough, []) if isinstance(v, ast.Call) and isinstance(v.func, ast.Attribute) and v.func.attr in ("view", "reshape")]
-    ok = len(flat) == 1 and [norm(a).replace(" ", "") for a in flat[0].args] == ["samples*channels", "2"]
-    res.ob(R, ok, fi.qualname, "peaks flattened to (samples*channels, 2)", f"peaks are flattened as `{short(flat[0], 50) if flat else '?'}`", fi.where)
-    rs = [v for v in d.get("cms", []) if isinstance(v, ast.Call) and norm(v.func) == "torch.reshape"]
-    ok = len(rs) == 1 and norm(rs[0].args[1]).replace(" ", "") == "[samples*channels,1,cms.size(2),cms.size(3)]"
-    res.ob(R, ok, fi.qualname, "maps flattened the same way, (samples*channels, 1, H, W)", f"maps are reshaped as `{short(rs[0].args[1], 50) if rs else '?'}`", fi.where)
-    sc = {n: norm(d[n][0]) for n in ("samples", "channels") if n in d}
-    res.ob(R, sc == {"samples": "cms.size(0)", "channels": "cms.size(1)"}, fi.qualname, "samples/channels from dims 0/1", f"{sc}", fi.where)
-    uses = {
-        "boxed peaks": ("valid_peaks", f"{rough}[valid_idx]"),
-    }
-    vp = d.get("valid_peaks", [])
-    res.ob(R, len(vp) == 1 and norm(vp[0]) == f"{rough}[valid_idx]", fi.qualname, "boxes are built for rough_peaks[valid_idx]", f"valid_peaks is `{short(vp[0], 40) if vp else '?'}`", fi.where)
-    bb = [c for c, q in prog.calls_in(fi) if q == "sleap_nn.data.instance_cropping:make_centered_bboxes"]
-    ok = len(bb) == 1 and norm(bb[0].args[0]) == "valid_peaks" and {k.arg: norm(k.value) for k in bb[0].keywords} == {"box_height": "crop_size", "box_width": "crop_size"}
-    res.ob(R, ok, fi.qualname, "patch boxes centred on the valid peaks", "patch boxes are not centred on the valid peaks with the patch size", fi.where)
-    cb = [c for c, q in prog.calls_in(fi) if q == f"{PF}:crop_bboxes"]
-    ok = len(cb) == 1
-    if ok:
-        b = astq.bind_args(prog.func(f"{PF}:crop_bboxes"), cb[0])
-        ok = norm(b.get("images")) == "cms" and norm(b.get("bboxes")) == "bboxes" and norm(b.get("sample_inds")) == "valid_idx"
-    res.ob(R, ok, fi.qualname, "patches cut from map valid_idx[i] for box i",
-           "crop_bboxes does not receive valid_idx as the per-box map index: the patch of a peak is cut from another channel's map", fi.where)
-    aug = [s for s in walk_function(fi.node) if isinstance(s, ast.AugAssign) and isinstance(s.target, ast.Subscript)]
-    ok = len(aug) == 1 and norm(aug[0].target) == "refined_peaks[valid_idx]" and isinstance(aug[0].op, ast.Add) and norm(aug[0].value) == "offsets"
-    res.ob(R, ok, fi.qualname, "offsets added to exactly the valid rows", f"offsets are applied by `{short(aug[0], 50) if aug else '?'}`", fi.where, sample=short(aug[0], 50) if aug else None)
-    rp = d.get("refined_peaks", [])
-    res.ob(R, len(rp) >= 1 and any(norm(x) == f"{rough}.clone()" for x in rp) and not any(norm(x) == rough for x in rp), fi.qualname, "refinement works on a clone of the rough peaks", "refined_peaks is not a clone of the rough peaks (NaN rows / caller's tensor affected)", fi.where)
-    od = d.get("offsets", [])
-    res.ob(R, len(od) == 1 and norm(od[0]) == "torch.cat([dx_hat, dy_hat], dim=1)", fi.qualname, "offsets = (dx, dy)", f"offsets are `{short(od[0], 40) if od else '?'}`", fi.where)
-    gv = d.get("gv", [])
-    res.ob(R, len(gv) == 1 and norm(gv[0]).replace(" ", "") == "torch.arange(crop_size,dtype=torch.float32)-(crop_size-1)/2", fi.qualname, "patch grid centred",
-           f"patch grid is `{short(gv[0], 50) if gv else '?'}`: a symmetric bump centred on a cell would be moved", fi.where)
-    rets = [n for n in walk_function(fi.node) if isinstance(n, ast.Return)]
+    S_, C_, H_, W_ = (f"{maps}.size({k})" for k in range(4))
+
+    def T(e) -> str:
+        return astq.dims(norm(astq.strip_device(e))).replace(" ", "") if e is not None else ""
+
+    flat_forms = {f"{rough}.view({S_}*{C_},2)", f"{rough}.reshape({S_}*{C_},2)", f"{rough}.view(-1,2)", f"{rough}.reshape(-1,2)", f"{rough}.view({C_}*{S_},2)"}
+    aug = [s_ for s_ in walk_function(fn) if isinstance(s_, ast.AugAssign) and isinstance(s_.target, ast.Subscript)]
+    res.ob(R, len(aug) == 1 and isinstance(aug[0].op, ast.Add), fi.qualname, "offsets added in place to selected rows, once", f"{len(aug)} in-place updates", fi.where,
+           sample=short(aug[0], 50) if aug else None)
+    if len(aug) != 1:
+        return
+    a = aug[0]
+    where = f"{fi.module.relpath}:{a.lineno}"
+    idx = astq.expand_at(fn, a.target.slice, a)
+    base = astq.expand_at(fn, a.target.value, a)
+    offs = astq.expand_at(fn, a.value, a, unpack_calls=True, stop=[st])
+    ti = T(idx)
+    mi = re.fullmatch(r"torch\.where\(~torch\.isnan\((.+)\[:,0\]\)\)\[0\]", ti) or re.fullmatch(r"torch\.where\(torch\.isnan\((.+)\[:,0\]\)==False\)\[0\]", ti)
+    ok = mi is not None and mi.group(1) in flat_forms
+    res.ob(R, ok, fi.qualname, "valid_idx = rows of the flattened peak list that are not NaN", f"the updated rows are `{short(idx, 70)}`", where)
+    res.ob(R, ok, fi.qualname, "peaks flattened to (samples*channels, 2)", f"peaks are flattened as `{mi.group(1) if mi else '?'}`", where)
+    tb = T(base)
+    okc = tb.endswith(".clone()") and tb[: -len(".clone()")] in flat_forms
+    res.ob(R, okc, fi.qualname, "refinement works on a clone of the rough peaks", f"the refined peaks start as `{short(base, 50)}`: not a clone of the flattened rough peaks (NaN rows / caller's tensor affected)", where)
+    # offsets
+    o = offs
+    okc = isinstance(o, ast.Call) and norm(o.func).split(".")[-1] in ("cat", "concat") and o.args and isinstance(o.args[0], (ast.List, ast.Tuple)) and len(o.args[0].elts) == 2 \
+        and (any(k.arg in ("dim", "axis") and astq.const_value(k.value) in (1, -1) for k in o.keywords) or (len(o.args) == 2 and astq.const_value(o.args[1]) in (1, -1)))
+    comp = []
+    if okc:
+        for x in o.args[0].elts:
+            if isinstance(x, ast.Subscript) and isinstance(x.value, ast.Call) and prog.resolve_call(fi, x.value) == f"{PF}:integral_regression":
+                comp.append((astq.const_value(x.slice), x.value))
+            else:
+                comp.append((None, None))
+    okc = okc and [c[0] for c in comp] == [0, 1]
+    res.ob(R, okc, fi.qualname, "offsets = (dx, dy)", f"offsets are `{short(o, 60)}`", where)
+    if not okc:
+        return
+    bi = astq.bind_args(prog.func(f"{PF}:integral_regression"), comp[0][1])
+    gx, gy = T(bi.get("xv")), T(bi.get("yv"))
+    mm = re.fullmatch(r"torch\.arange\((\w+)(?:,dtype=torch\.float32)?\)(?:\.float\(\))?-\(\1-1\)/2(?:\.0)?", gx)
+    res.ob(R, gx == gy and mm is not None, fi.qualname, "patch grid centred", f"patch grid is `{short(bi.get('xv'), 50)}`: a symmetric bump centred on a cell would be moved", where)
+    n = mm.group(1) if mm else None
+    crops = astq.peel(bi.get("cms"), "to", "float") if bi.get("cms") is not None else None
+    okc = isinstance(crops, ast.Call) and prog.resolve_call(fi, crops) == f"{PF}:crop_bboxes"
+    res.ob(R, okc, fi.qualname, "regression runs on the crops", "integral regression is not applied to the crops", where)
+    if okc:
+        b = astq.bind_args(prog.func(f"{PF}:crop_bboxes"), crops)
+        tm = T(b.get("images"))
+        forms = {f"torch.reshape({maps},[{S_}*{C_},1,{H_},{W_}])", f"{maps}.reshape({S_}*{C_},1,{H_},{W_})", f"{maps}.view({S_}*{C_},1,{H_},{W_})", f"{maps}.reshape(-1,1,{H_},{W_})",
+                 f"torch.reshape({maps},({S_}*{C_},1,{H_},{W_}))", f"{maps}.reshape([{S_}*{C_},1,{H_},{W_}])"}
+        res.ob(R, tm in forms, fi.qualname, "maps flattened the same way, (samples*channels, 1, H, W)", f"maps are reshaped as `{short(b.get('images'), 60)}`", where)
+        res.ob(R, tm in forms, fi.qualname, "samples/channels from dims 0/1", "samples/channels read from other dims", where)
+        res.ob(R, T(b.get("sample_inds")) == ti, fi.qualname, "patches cut from map valid_idx[i] for box i",
+               "crop_bboxes does not receive valid_idx as the per-box map index: the patch of a peak is cut from another channel's map", where)
+        bx = b.get("bboxes")
+        okb = isinstance(bx, ast.Call) and prog.resolve_call(fi, bx) == "sleap_nn.data.instance_cropping:make_centered_bboxes"
+        if okb:
+            b3 = astq.bind_args(prog.func("sleap_nn.data.instance_cropping:make_centered_bboxes"), bx)
+            tc = T(b3.get("centroids"))
+            okv = mi is not None and tc == f"{mi.group(1)}[{ti}]"
+            res.ob(R, okv, fi.qualname, "boxes are built for rough_peaks[valid_idx]", f"boxes are built for `{short(b3.get('centroids'), 50)}`", where)
+            okb = okv and T(b3.get("box_height")) == T(b3.get("box_width")) and T(b3.get("box_height")) in (n, "integral_patch_size")
+        res.ob(R, okb, fi.qualname, "patch boxes centred on the valid peaks", "patch boxes are not centred on the valid peaks with the patch size", where)
+    # returns
+    rets = [n_ for n_ in walk_function(fn) if isinstance(n_, ast.Return)]
+    n_ref = 0
     for r in rets:
-        el = [norm(e) for e in r.value.elts] if isinstance(r.value, ast.Tuple) else []
-        res.ob(R, len(el) == 2 and el[1] == vals and el[0] in (rough, "refined_peaks"), fi.qualname, f"return ({el[0] if el else '?'}, values of the rough detection)",
-               f"a return path yields `{short(r.value, 50)}`", f"{fi.module.relpath}:{r.lineno}")
-    fin = [s for s in d.get("refined_peaks", []) if isinstance(s, ast.Call) and isinstance(s.func, ast.Attribute) and s.func.attr == "reshape"]
-    res.ob(R, len(fin) == 1 and [norm(a) for a in fin[0].args] == ["samples", "channels", "2"], fi.qualname, "result reshaped back to (samples, channels, 2)", "refined peaks are not reshaped back to (samples, channels, 2)", fi.where)
-    # crop_bboxes: size from the box, crop of images[sample_inds]
+        el = r.value.elts if isinstance(r.value, ast.Tuple) else []
+        ok = len(el) == 2 and norm(el[1]) == vals
+        first = norm(el[0]) if ok else "?"
+        if ok and first != rough:
+            n_ref += 1
+            fx = T(astq.expand_at(fn, el[0], r))
+            ok = fx in {f"{f}.clone().reshape({S_},{C_},2)" for f in flat_forms} | {f"{f}.clone().view({S_},{C_},2)" for f in flat_forms}
+            res.ob(R, ok and isinstance(el[0], ast.Name) and norm(a.target.value) == first, fi.qualname, "result reshaped back to (samples, channels, 2)",
+                   f"the refined result is `{short(el[0], 40)}` = `{fx[:80]}`: not the updated clone reshaped back to (samples, channels, 2)", f"{fi.module.relpath}:{r.lineno}")
+        res.ob(R, ok, fi.qualname, f"return ({first}, values of the rough detection)", f"a return path yields `{short(r.value, 50)}`", f"{fi.module.relpath}:{r.lineno}")
+    res.ob(R, n_ref == 1, fi.qualname, "one refined return path", f"{n_ref} refined return paths", fi.where)
+    # crop_bboxes: crop of images[sample_inds] with the boxes
     cbf = prog.func(f"{PF}:crop_bboxes")
     res.touch(cbf)
-    cr = [c for c in walk_function(cbf.node) if isinstance(c, ast.Call) and norm(c.func) == "crop_and_resize"]
-    ok = len(cr) == 1 and norm(cr[0].args[0]) == "images[sample_inds]" and {k.arg: norm(k.value) for k in cr[0].keywords} == {"boxes": "bboxes", "size": "box_size"}
+    cr = [c for c in walk_function(cbf.node) if isinstance(c, ast.Call) and norm(c.func).split(".")[-1] == "crop_and_resize"]
+    ok = len(cr) == 1
+    if ok:
+        im = astq.expand_at(cbf.node, cr[0].args[0] if cr[0].args else astq.call_arg(cr[0], 0, "input_tensor"), enclosing_stmt(cr[0]))
+        bx = astq.expand_at(cbf.node, astq.call_arg(cr[0], 1, "boxes"), enclosing_stmt(cr[0]))
+        pm = cbf.pos_params
+        ok = len(pm) >= 3 and norm(im) == f"{pm[0]}[{pm[2]}]" and norm(bx) == pm[1]
     res.ob(R, ok, cbf.qualname, "crop i is cut from images[sample_inds[i]] with box i", "crop_bboxes does not pair images[sample_inds] with the boxes", cbf.where)
     res.floor(R, 14)
 
